@@ -28,6 +28,7 @@ Op ==
        [] Ev.op = "setid"  -> /\ live' = {t \in live : t = Ev.s \/ idOf[t] # Ev.u}     \* takeover closes the older session
                               /\ idOf' = SetId(Ev.s, Ev.u) /\ known' = known \cup {Ev.u}
        [] Ev.op \in {"close", "disc"} -> /\ live' = live \ {Ev.s} /\ UNCHANGED <<idOf, known>>
+       [] Ev.op \in {"starth", "endh"} -> UNCHANGED <<live, idOf, known>>    \* a handler starts / returns
   /\ Step
 
 SeqSet(q) == {q[i] : i \in 1..Len(q)}
